@@ -23,11 +23,12 @@ ASSUMPTIONS = ["clang's macro-expanded AST of the working tree's C file is the c
                "union members are modelled as independent cells (no type punning through unions in the verified functions)",
                "reads of uninitialised locals are not checked; termination is not proved",
                "the sockaddr_ll object getifaddrs() hands out holds sll_halen address bytes (glibc keeps it <= 16 inside "
-               "its 28-byte union)"]
+               "its 28-byte union)",
+               "getifaddrs() stores NULL in *ifap before it can fail (glibc); on a libc that leaves *ifap untouched on "
+               "failure psutil_net_if_addrs' error path would pass an uninitialised pointer to freeifaddrs()"]
 NOT_COVERED = ["whole-extension memory safety beyond the functions under contract: bounded ASan+UBSan grid over every "
                "mod_methods entry (argument grid) and generated utmp / mounts files, not proved",
-               "psutil_net_if_addrs (getifaddrs walk), psutil_net_if_flags (3^20 paths), psutil_proc_cpu_affinity_get "
-               "(symbolically sized cpu set): sanitizer grid only",
+               "psutil_net_if_flags (3^20 paths), psutil_proc_cpu_affinity_get (symbolically sized cpu set): sanitizer grid only",
                "'agree with the kernel's interface list, addresses, MTU and flags': both sides are the kernel; only the "
                "decoding is within a contract's reach",
                "_pslinux.users/disk_partitions/net_if_stats loops: unrolled for record lists of length <= 2 with arbitrary "
@@ -154,6 +155,70 @@ def post_pid_range(I, x):
     return [("ValueError exactly for negative pids", (pid < 0) if x.null else (pid >= 0))]
 
 
+def ifa_node(I, label="ifaddrs"):
+    k = I.ghost.get("records", 1)
+    I.ghost["records"] = k + 1
+    return PV(Mem("struct", f"{label}#{k}", ctype="struct ifaddrs", fields={}, library_owned=True), 0)
+
+
+def ifa_field(I, obj, name, ty):
+    """getifaddrs() list node: every pointer is NULL or a library-owned object, every scalar arbitrary"""
+    if name == "ifa_next":
+        return Cell(ty, PV(None) if I.choose(2, "ifa_next NULL/node") == 0 else ifa_node(I), name)
+    if name in ("ifa_addr", "ifa_netmask", "ifu_broadaddr", "ifu_dstaddr"):
+        if I.choose(2, f"{name} NULL/sockaddr") == 0:
+            return Cell(ty, PV(None), name)
+        return Cell(ty, PV(Mem("struct", f"{obj.name}.{name}", ctype="struct sockaddr", fields={}, library_owned=True), 0), name)
+    return cvc.default_field(I, obj, name, ty)
+
+
+def ifa_cursor_make(I):
+    return PV(None) if I.choose(2, "cursor NULL/node") == 0 else ifa_node(I)
+
+
+def ifa_cursor_ok(I, v):
+    return isinstance(v, PV) and (v.obj is None or (v.obj.kind == "struct" and v.obj.ctype == "struct ifaddrs"
+                                                    and getattr(v.obj, "library_owned", False) and v.off == 0))
+
+
+def addrs_append(I, args):
+    """at PyList_Append: the tuple is (ifa_name, sa_family, addr(ifa_addr), addr(ifa_netmask), broadcast, ptp) of the
+    node under the cursor; broadcast only from ifu_broadaddr under IFF_BROADCAST, ptp only from ifu_dstaddr under
+    IFF_POINTOPOINT (and not IFF_BROADCAST), the other one None"""
+    tup = args[1].obj
+    if tup is None or tup.kind != "pyobj" or "items" not in tup.info:
+        return [("the appended object is the tuple just built", False)]
+    node = I.var("ifa").value.obj
+    f = node.fields
+    it = tup.info["items"]
+    none = I.singleton("None")
+    out = [("tuple format '(siOOOO)'", tup.info["fmt"] == "(siOOOO)")]
+    out.append(("name = ifa_name", isinstance(it[0], tuple) and it[0][1] is f["ifa_name"].value.obj))
+    fam = f["ifa_addr"].value.obj.fields["sa_family"].value
+    out.append(("family = ifa_addr->sa_family", it[1].t == Z.ZeroExt(32 - fam.bits, fam.t)))
+
+    def from_field(item, fld, holder):
+        return item is not none and item.info.get("args") is not None and item.info["args"][0].obj is holder[fld].value.obj
+    out.append(("address = convert(ifa_addr, family)", from_field(it[2], "ifa_addr", f)))
+    out.append(("netmask = convert(ifa_netmask, family) or None", it[3] is none or from_field(it[3], "ifa_netmask", f)))
+    flags = f["ifa_flags"].value.t
+
+    def flag(name):        # the header's constant, whatever its value (left symbolic)
+        c = I.enum_by_name.get(name)
+        return ((flags & c.value.t) != 0) if c is not None else Z.BoolVal(False)
+    bc, pp = flag("IFF_BROADCAST"), flag("IFF_POINTOPOINT")
+    if it[4] is not none:
+        u = f["ifa_ifu"].value.fields
+        out.append(("a broadcast address is reported only under IFF_BROADCAST, from ifu_broadaddr",
+                    Z.And(bc, Z.BoolVal(from_field(it[4], "ifu_broadaddr", u)))))
+        out.append(("broadcast and ptp are never both reported", it[5] is none))
+    if it[5] is not none:
+        u = f["ifa_ifu"].value.fields
+        out.append(("a ptp address is reported only under IFF_POINTOPOINT without IFF_BROADCAST, from ifu_dstaddr",
+                    Z.And(Z.Not(bc), pp, Z.BoolVal(from_field(it[5], "ifu_dstaddr", u)))))
+    return out
+
+
 NOLOOP = {i: cvc.LoopCut() for i in range(3)}
 C_CONTRACTS = [
     cvc.CContract("C17", "psutil/arch/linux/users.c", "psutil_users", loops={0: cvc.LoopCut()}, post=post_list,
@@ -165,6 +230,11 @@ C_CONTRACTS = [
     cvc.CContract("C17", "psutil/_psutil_posix.c", "psutil_convert_ipaddr", params=ip_params, field=ip_field,
                   loops={0: cvc.LoopCut(inv=ip_inv, ptrs={"ptr": ip_ptr}, arrays=["buf"])},
                   note="MAC formatter: every sprintf stays inside buf[NI_MAXHOST] (ptr == buf + 3n, n <= len <= 255)"),
+    cvc.CContract("C17", "psutil/_psutil_posix.c", "psutil_net_if_addrs", field=ifa_field, post=post_list,
+                  externs={"psutil_convert_ipaddr": cvc.x_new_object("addr")}, checks={"PyList_Append": addrs_append},
+                  loops={0: cvc.LoopCut(dead=["py_address", "family"], cursors={"ifa": (ifa_cursor_make, ifa_cursor_ok)})},
+                  note="getifaddrs() list walk: tuple slots per node; ownership on every error path (psutil_convert_ipaddr "
+                       "applied through its own contract: NULL+exception / None / new object)"),
     cvc.CContract("C17", "psutil/_psutil_posix.c", "append_flag", filt="flag", params=flag_params),
     cvc.CContract("C17", "psutil/_psutil_posix.c", "psutil_net_if_mtu", note="PSUTIL_STRNCPY stays inside ifr_name[16]"),
     cvc.CContract("C17", "psutil/_psutil_posix.c", "psutil_net_if_is_running"),
